@@ -217,6 +217,9 @@ func main() {
 			if c.Pksrc != "state_nokey" {
 				acc.PubKey = own.pub
 			}
+			if c.Pksrc == "state_foreign" { // the account at the signer's address carries somebody else's key
+				acc.PubKey = att.pub
+			}
 			a.AK.SetAccount(ctx, &acc)
 		}
 		// a message whose declared signer is `signer` and whose handler fails
